@@ -213,6 +213,268 @@ Proof.
   split; [reflexivity|]. split; [discriminate|]. vm_compute. reflexivity.
 Qed.
 
+(** ================= X16: serde's typed round trip of the Info dictionary made concrete =================
+    [norm] := [InfoRoundTrip.info_norm ext] (Model/InfoRoundTrip.v: the typed loader restricted to the info dictionary,
+    then serde + bendy's writer for `Info`), where [ext] is the url crate OUTSIDE the fragment modelled by
+    Model/UrlNorm.v and is universally quantified; "typed-normal" is the syntactic, boolean predicate [typed_normal]. *)
+From Imdl Require Import Model.BencodeWide Model.InfoRoundTrip Proofs.InfoRoundTripWide Proofs.InfoRoundTripProofs
+  Proofs.InfoRoundTripCreate Proofs.InfoRoundTripPeer.
+From Imdl Require Model.Metainfo Model.UrlNorm.
+
+(** (a) load-then-encode is the identity on normal forms, for ALL byte strings *)
+Check normal_fixed : forall ext d, typed_normal d = true -> info_norm ext d = Some d.
+Theorem c11_typed_normal_fixed : forall ext d, typed_normal d = true -> info_norm ext d = Some d.
+Proof. exact normal_fixed. Qed.
+
+(** (b) whatever is written is normal (in everything but, possibly, an update-url outside the url fragment) and, inside
+    the fragment, typed-normal and stable *)
+Check norm_normal_upto_url : forall ext d e, info_norm ext d = Some e -> typed_normal_upto_url e = true.
+Check norm_normal : forall ext d e, info_norm ext d = Some e -> info_url_modelled d = true ->
+  typed_normal e = true /\ info_norm ext e = Some e.
+Theorem c11_reserialisation_normal : forall ext d e, info_norm ext d = Some e ->
+  typed_normal_upto_url e = true /\
+  (info_url_modelled d = true -> typed_normal e = true /\ info_norm ext e = Some e).
+Proof. intros ext d e H. split; [exact (norm_normal_upto_url ext d e H)|exact (norm_normal ext d e H)]. Qed.
+
+Check typed_normal_iff : forall ext d, info_url_modelled d = true -> (typed_normal d = true <-> info_norm ext d = Some d).
+Theorem c11_typed_normal_iff : forall ext d, info_url_modelled d = true -> (typed_normal d = true <-> info_norm ext d = Some d).
+Proof. exact typed_normal_iff. Qed.
+
+(** (c) what is written is canonical bencode: the encoding of a value with strictly increasing keys, nested at most 4
+    deep, that bendy's serde reader reads back exactly; the STRICT reader (i64 integers: bendy's Value, imdl's own
+    Infohash::from_input) reads it back when `piece length` < 2^63 ... *)
+Check norm_canonical : forall ext d e, info_norm ext d = Some e ->
+  exists v, e = encode v /\ sortedb v = true /\ depth v <= 4 /\ wdecode (fuel_for e) e = Some (v, []).
+Theorem c11_reserialisation_canonical : forall ext d e, info_norm ext d = Some e ->
+  exists v, e = encode v /\ sortedb v = true /\ depth v <= 4 /\ wdecode (fuel_for e) e = Some (v, []).
+Proof. exact norm_canonical. Qed.
+
+Check norm_strict : forall ext d t, info_typed ext d = Some t -> t_piece_length t < 2 ^ 63 ->
+  let e := encode (info_value t) in
+  info_norm ext d = Some e /\ wfb (info_value t) = true /\ decode (bfuel e) e = Some (info_value t, []).
+Theorem c11_reserialisation_strict : forall ext d t, info_typed ext d = Some t -> t_piece_length t < 2 ^ 63 ->
+  let e := encode (info_value t) in
+  info_norm ext d = Some e /\ wfb (info_value t) = true /\ decode (bfuel e) e = Some (info_value t, []).
+Proof. exact norm_strict. Qed.
+
+(** ... and only then (FINDING, small): `piece length` is a u64 that is read and written back unchanged, so a dictionary
+    with `piece length` = 2^63 is typed-normal, accepted, returned and written by from-link, and refused by every strict
+    reader, imdl's own `torrent show` included *)
+Check norm_strict_refuted : exists d, forall ext,
+  typed_normal d = true /\ info_norm ext d = Some d /\ forall fuel, decode fuel d = None.
+Theorem c11_reserialisation_strict_refuted : exists d, forall ext,
+  typed_normal d = true /\ info_norm ext d = Some d /\ forall fuel, decode fuel d = None.
+Proof. exact norm_strict_refuted. Qed.
+
+(** the writer is bendy's struct serializer (Model/Schema.v, the model the create side uses) on Info's fields in
+    declaration order; the keys are those of the translator-generated serde schema *)
+Check info_serde_value : forall t, info_serde t = Some (info_value t).
+Theorem c11_writer_is_struct_serializer : forall t, info_serde t = Some (info_value t).
+Proof. exact info_serde_value. Qed.
+
+Theorem c11_info_keys_match_schema :
+  map (fun e => fst (fst e)) GenSchema.info_fields
+    = [Summary.k_private; Summary.k_piece_length; Summary.k_name; Summary.k_source; Summary.k_pieces; Summary.k_update_url] /\
+  map (fun e => fst (fst e)) GenSchema.mode_single_fields = [Summary.k_length; Summary.k_md5sum] /\
+  map (fun e => fst (fst e)) GenSchema.mode_multiple_fields = [Summary.k_files] /\
+  map (fun e => fst (fst e)) GenSchema.file_info_fields = [Summary.k_length; Summary.k_path; Summary.k_md5sum] /\
+  GenSchema.info_flatten = ["mode"%string] /\ GenSchema.mode_untagged = true /\
+  GenSchema.mode_variants = ["Single"%string; "Multiple"%string] /\
+  map (fun e => snd e) GenSchema.info_fields = [true; false; false; true; false; true] /\
+  map (fun e => snd e) GenSchema.mode_single_fields = [false; true] /\
+  map (fun e => snd e) GenSchema.file_info_fields = [false; false; true].
+Proof. repeat split; reflexivity. Qed.
+
+(** COMPLETENESS, concretely: [c11_complete] with [norm := info_norm ext] and the hypothesis [norm d = Some d] replaced
+    by the syntactic [typed_normal d = true] (which also makes [d <> []] redundant) *)
+Check complete_concrete : forall ext H d id ign hsv ign0 target reserved peer_id tail,
+  typed_normal d = true -> N.of_nat (length d) < 2 ^ 63 -> H d = target ->
+  (forall i, Forall ignorable (ign i)) -> Forall ignorable ign0 ->
+  wfb hsv = true -> view_hs hsv = Some (Some (N.of_nat (length d)), Some id) ->
+  length target = 20%nat -> length reserved = 8%nat -> length peer_id = 20%nat ->
+  (0 <? N.land (nth EXT_INDEX reserved 0) EXT_BIT) = true ->
+  Forall ok_item (honest_items d ign hsv ign0) ->
+  fetch (info_norm ext) H target (honest_stream d ign hsv ign0 target reserved peer_id tail)
+  = (Got d, honest_requests id d).
+Theorem c11_complete_concrete : forall ext H d id ign hsv ign0 target reserved peer_id tail,
+  typed_normal d = true -> N.of_nat (length d) < 2 ^ 63 -> H d = target ->
+  (forall i, Forall ignorable (ign i)) -> Forall ignorable ign0 ->
+  wfb hsv = true -> view_hs hsv = Some (Some (N.of_nat (length d)), Some id) ->
+  length target = 20%nat -> length reserved = 8%nat -> length peer_id = 20%nat ->
+  (0 <? N.land (nth EXT_INDEX reserved 0) EXT_BIT) = true ->
+  Forall ok_item (honest_items d ign hsv ign0) ->
+  fetch (info_norm ext) H target (honest_stream d ign hsv ign0 target reserved peer_id tail)
+  = (Got d, honest_requests id d).
+Proof. exact complete_concrete. Qed.
+
+(** AUTHENTICITY, concretely: for every byte stream, a dictionary that is returned hashes to the magnet's infohash, is
+    the typed re-serialisation of what was assembled, is canonical bencode and is normal up to the update-url text *)
+Check authentic_concrete : forall ext H target s i o,
+  fetch (info_norm ext) H target s = (Got i, o) ->
+  H i = target /\ (exists b, info_norm ext b = Some i) /\ typed_normal_upto_url i = true /\
+  exists v, i = encode v /\ sortedb v = true /\ depth v <= 4 /\ wdecode (fuel_for i) i = Some (v, []).
+Theorem c11_authentic_concrete : forall ext H target s i o,
+  fetch (info_norm ext) H target s = (Got i, o) ->
+  H i = target /\ (exists b, info_norm ext b = Some i) /\ typed_normal_upto_url i = true /\
+  exists v, i = encode v /\ sortedb v = true /\ depth v <= 4 /\ wdecode (fuel_for i) i = Some (v, []).
+Proof. exact authentic_concrete. Qed.
+
+Check authentic_concrete_stable : forall ext H target s i o,
+  fetch (info_norm ext) H target s = (Got i, o) ->
+  exists b, info_norm ext b = Some i /\ (info_url_modelled b = true -> typed_normal i = true /\ info_norm ext i = Some i).
+Theorem c11_authentic_concrete_stable : forall ext H target s i o,
+  fetch (info_norm ext) H target s = (Got i, o) ->
+  exists b, info_norm ext b = Some i /\ (info_url_modelled b = true -> typed_normal i = true /\ info_norm ext i = Some i).
+Proof. exact authentic_concrete_stable. Qed.
+
+(** (d) what `imdl torrent create` writes for its info dictionary (Model/Metainfo.v [build_info], any url normaliser
+    [norm]) is typed-normal under that model's well-formedness [create_ok] ... *)
+Check created_info_normal : forall norm o c iv name,
+  Metainfo.build_info norm o c = Some iv -> Metainfo.name_of o (Metainfo.c_input c) = Some name ->
+  create_ok norm o c name = true ->
+  typed_normal (encode iv) = true /\ forall ext, info_norm ext (encode iv) = Some (encode iv).
+Theorem c11_created_info_typed_normal : forall norm o c iv name,
+  Metainfo.build_info norm o c = Some iv -> Metainfo.name_of o (Metainfo.c_input c) = Some name ->
+  create_ok norm o c name = true ->
+  typed_normal (encode iv) = true /\ forall ext, info_norm ext (encode iv) = Some (encode iv).
+Proof. exact created_info_normal. Qed.
+
+(** ... so a torrent imdl created can be fetched back byte-identically from any honest peer *)
+Check created_torrents_fetch_back : forall ext norm o c iv name H id ign hsv ign0 target reserved peer_id tail,
+  Metainfo.build_info norm o c = Some iv -> Metainfo.name_of o (Metainfo.c_input c) = Some name ->
+  create_ok norm o c name = true ->
+  let d := encode iv in
+  N.of_nat (length d) < 2 ^ 63 -> H d = target ->
+  (forall i, Forall ignorable (ign i)) -> Forall ignorable ign0 ->
+  wfb hsv = true -> view_hs hsv = Some (Some (N.of_nat (length d)), Some id) ->
+  length target = 20%nat -> length reserved = 8%nat -> length peer_id = 20%nat ->
+  (0 <? N.land (nth EXT_INDEX reserved 0) EXT_BIT) = true ->
+  Forall ok_item (honest_items d ign hsv ign0) ->
+  fetch (info_norm ext) H target (honest_stream d ign hsv ign0 target reserved peer_id tail)
+  = (Got d, honest_requests id d).
+Theorem c11_created_torrents_fetch_back : forall ext norm o c iv name H id ign hsv ign0 target reserved peer_id tail,
+  Metainfo.build_info norm o c = Some iv -> Metainfo.name_of o (Metainfo.c_input c) = Some name ->
+  create_ok norm o c name = true ->
+  let d := encode iv in
+  N.of_nat (length d) < 2 ^ 63 -> H d = target ->
+  (forall i, Forall ignorable (ign i)) -> Forall ignorable ign0 ->
+  wfb hsv = true -> view_hs hsv = Some (Some (N.of_nat (length d)), Some id) ->
+  length target = 20%nat -> length reserved = 8%nat -> length peer_id = 20%nat ->
+  (0 <? N.land (nth EXT_INDEX reserved 0) EXT_BIT) = true ->
+  Forall ok_item (honest_items d ign hsv ign0) ->
+  fetch (info_norm ext) H target (honest_stream d ign hsv ign0 target reserved peer_id tail)
+  = (Got d, honest_requests id d).
+Proof. exact created_torrents_fetch_back. Qed.
+
+(** ... and [create_ok] follows from the creation model's own well-formedness ([EndToEnd.torrent_ok], which C02's
+    [created_torrent_ok] proves of every creation result): the info dictionary of a created torrent, as Model/EndToEnd.v
+    assembles it from the creation result, is typed-normal *)
+From Imdl Require Model.EndToEnd Proofs.InfoRoundTripE2E.
+Check InfoRoundTripE2E.created_torrent_info_typed_normal : forall norm o md5 t iv,
+  EndToEnd.torrent_ok md5 t = true ->
+  match Metainfo.o_source o with Some s => Summary.utf8_valid s | None => true end = true ->
+  match Metainfo.o_update_url o with Some u => UrlNorm.is_normal_url (norm u) | None => true end = true ->
+  Metainfo.build_info norm (EndToEnd.opts_of o md5 t) (EndToEnd.content_of t) = Some iv ->
+  typed_normal (encode iv) = true /\ forall ext, info_norm ext (encode iv) = Some (encode iv).
+Theorem c11_created_torrent_info_typed_normal : forall norm o md5 t iv,
+  EndToEnd.torrent_ok md5 t = true ->
+  match Metainfo.o_source o with Some s => Summary.utf8_valid s | None => true end = true ->
+  match Metainfo.o_update_url o with Some u => UrlNorm.is_normal_url (norm u) | None => true end = true ->
+  Metainfo.build_info norm (EndToEnd.opts_of o md5 t) (EndToEnd.content_of t) = Some iv ->
+  typed_normal (encode iv) = true /\ forall ext, info_norm ext (encode iv) = Some (encode iv).
+Proof. exact InfoRoundTripE2E.created_torrent_info_typed_normal. Qed.
+
+(** the stored update-url is normal whatever spelling inside the url fragment `--update-url` was given *)
+Check norm_with_normal : forall ext u s, UrlNorm.u_norm u = Some (Some s) -> UrlNorm.is_normal_url (UrlNorm.u_norm_with ext u) = true.
+Theorem c11_created_update_url_normal : forall ext u s,
+  UrlNorm.u_norm u = Some (Some s) -> UrlNorm.is_normal_url (UrlNorm.u_norm_with ext u) = true.
+Proof. exact norm_with_normal. Qed.
+
+(** (e) OPEN FINDING made precise (class typed-roundtrip-changes-value): [c11_known_class d] = canonical dictionary made
+    only of the keys imdl models that is NOT typed-normal. Such a dictionary is never returned as served ... *)
+Check known_class_never_understood : forall ext H d id ign hsv ign0 target reserved peer_id tail,
+  c11_known_class d = true -> info_url_modelled d = true ->
+  d <> [] -> N.of_nat (length d) < 2 ^ 63 ->
+  (forall i, Forall ignorable (ign i)) -> Forall ignorable ign0 ->
+  wfb hsv = true -> view_hs hsv = Some (Some (N.of_nat (length d)), Some id) ->
+  length target = 20%nat -> length reserved = 8%nat -> length peer_id = 20%nat ->
+  (0 <? N.land (nth EXT_INDEX reserved 0) EXT_BIT) = true ->
+  Forall ok_item (honest_items d ign hsv ign0) ->
+  fst (fetch (info_norm ext) H target (honest_stream d ign hsv ign0 target reserved peer_id tail)) <> Got d.
+Theorem c11_known_class_never_understood : forall ext H d id ign hsv ign0 target reserved peer_id tail,
+  c11_known_class d = true -> info_url_modelled d = true ->
+  d <> [] -> N.of_nat (length d) < 2 ^ 63 ->
+  (forall i, Forall ignorable (ign i)) -> Forall ignorable ign0 ->
+  wfb hsv = true -> view_hs hsv = Some (Some (N.of_nat (length d)), Some id) ->
+  length target = 20%nat -> length reserved = 8%nat -> length peer_id = 20%nat ->
+  (0 <? N.land (nth EXT_INDEX reserved 0) EXT_BIT) = true ->
+  Forall ok_item (honest_items d ign hsv ign0) ->
+  fst (fetch (info_norm ext) H target (honest_stream d ign hsv ign0 target reserved peer_id tail)) <> Got d.
+Proof. exact known_class_never_understood. Qed.
+
+(** ... and the recorded witness (`update-url` = http://example.com, re-serialised as http://example.com/) is in it *)
+Check known_witness : forall ext,
+  c11_known_class ex_known_witness = true /\ info_url_modelled ex_known_witness = true /\
+  info_norm ext ex_known_witness = Some ex_known_witness_norm /\ ex_known_witness_norm <> ex_known_witness /\
+  typed_normal ex_known_witness_norm = true.
+Theorem c11_known_class_witness : forall ext,
+  c11_known_class ex_known_witness = true /\ info_url_modelled ex_known_witness = true /\
+  info_norm ext ex_known_witness = Some ex_known_witness_norm /\ ex_known_witness_norm <> ex_known_witness /\
+  typed_normal ex_known_witness_norm = true.
+Proof. exact known_witness. Qed.
+
+(** ---- the hypotheses of the concrete theorems are satisfiable, and the concrete model computes ---- *)
+(** d5:filesld6:lengthi3e6:md5sum32:0123456789abcdef0123456789abcdef4:pathl1:a1:beee4:name1:n12:piece lengthi16384e
+    6:pieces20:<20 bytes>7:privatei1e6:source1:S10:update-url27:udp://tracker.example:6969/e *)
+Definition ex_normal_info : bytes :=
+  [100; 53; 58; 102; 105; 108; 101; 115; 108; 100; 54; 58; 108; 101; 110; 103; 116; 104; 105; 51; 101; 54; 58; 109; 100; 53; 115;
+   117; 109; 51; 50; 58; 48; 49; 50; 51; 52; 53; 54; 55; 56; 57; 97; 98; 99; 100; 101; 102; 48; 49; 50; 51; 52; 53; 54; 55; 56; 57;
+   97; 98; 99; 100; 101; 102; 52; 58; 112; 97; 116; 104; 108; 49; 58; 97; 49; 58; 98; 101; 101; 101; 52; 58; 110; 97; 109; 101; 49;
+   58; 110; 49; 50; 58; 112; 105; 101; 99; 101; 32; 108; 101; 110; 103; 116; 104; 105; 49; 54; 51; 56; 52; 101; 54; 58; 112; 105;
+   101; 99; 101; 115; 50; 48; 58] ++ repeat 200 20 ++
+  [55; 58; 112; 114; 105; 118; 97; 116; 101; 105; 49; 101; 54; 58; 115; 111; 117; 114; 99; 101; 49; 58; 83; 49; 48; 58; 117; 112;
+   100; 97; 116; 101; 45; 117; 114; 108; 50; 55; 58; 117; 100; 112; 58; 47; 47; 116; 114; 97; 99; 107; 101; 114; 46; 101; 120; 97;
+   109; 112; 108; 101; 58; 54; 57; 54; 57; 47; 101].
+Definition ex_hsv_n : value := ex_hsv (N.of_nat (length ex_normal_info)).
+
+Example c11_complete_concrete_satisfiable :
+  typed_normal ex_normal_info = true /\ N.of_nat (length ex_normal_info) < 2 ^ 63 /\
+  wfb ex_hsv_n = true /\ view_hs ex_hsv_n = Some (Some (N.of_nat (length ex_normal_info)), Some 3) /\
+  Forall ok_item (honest_items ex_normal_info ex_ign ex_hsv_n ex_ign0) /\
+  fetch (info_norm (fun _ => None)) (fun _ => ex_target) ex_target
+        (honest_stream ex_normal_info ex_ign ex_hsv_n ex_ign0 ex_target ex_reserved ex_peer_id [1; 2; 3])
+  = (Got ex_normal_info, [(3, 0)]).
+Proof.
+  split; [vm_compute; reflexivity|]. split; [vm_compute; reflexivity|]. split; [vm_compute; reflexivity|].
+  split; [vm_compute; reflexivity|]. split; [|vm_compute; reflexivity].
+  let x := eval vm_compute in (honest_items ex_normal_info ex_ign ex_hsv_n ex_ign0) in change (Forall ok_item x).
+  repeat (constructor; [exact I || reflexivity|]). constructor.
+Qed.
+
+(** the create side: a command line and what walker + hasher hand over *)
+Definition ex_create_opts : Metainfo.opts :=
+  {| Metainfo.o_announce := None; Metainfo.o_tiers := []; Metainfo.o_comment := None; Metainfo.o_source := Some [83];
+     Metainfo.o_nodes := []; Metainfo.o_private := true;
+     Metainfo.o_update_url := Some [85; 68; 80; 58; 47; 47; 116; 114; 97; 99; 107; 101; 114; 46; 101; 120; 97; 109; 112; 108; 101; 58; 54; 57; 54; 57; 47];
+     Metainfo.o_name := Some [110]; Metainfo.o_piece_length := Some 16384; Metainfo.o_md5 := true;
+     Metainfo.o_no_created_by := true; Metainfo.o_no_creation_date := true; Metainfo.o_allow_small := false;
+     Metainfo.o_allow_uneven := false; Metainfo.o_allow_private_trackerless := true; Metainfo.o_now := 0 |}.
+Definition ex_create_content : Metainfo.content :=
+  {| Metainfo.c_input := Metainfo.InDir [100]
+       [ {| Metainfo.f_path := [[97]; [98]]; Metainfo.f_length := 3;
+            Metainfo.f_md5 := [48; 49; 50; 51; 52; 53; 54; 55; 56; 57; 97; 98; 99; 100; 101; 102;
+                               48; 49; 50; 51; 52; 53; 54; 55; 56; 57; 97; 98; 99; 100; 101; 102] |} ];
+     Metainfo.c_pieces := repeat 200 20 |}.
+
+(** `--update-url UDP://tracker.example:6969/` (a spelling that is not normal) is stored normalised, and what create
+    writes is, byte for byte, the typed-normal dictionary above *)
+Example c11_created_satisfiable :
+  let norm := UrlNorm.u_norm_with (fun t => t) in
+  create_ok norm ex_create_opts ex_create_content [110] = true /\
+  Metainfo.name_of ex_create_opts (Metainfo.c_input ex_create_content) = Some [110] /\
+  option_map encode (Metainfo.build_info norm ex_create_opts ex_create_content) = Some ex_normal_info.
+Proof. cbv zeta. split; [vm_compute; reflexivity|]. split; vm_compute; reflexivity. Qed.
+
 Print Assumptions c11_sources_translated.
 Print Assumptions c11_model_matches_source.
 Print Assumptions c11_bep_constants.
@@ -231,3 +493,22 @@ Print Assumptions c11_complete_satisfiable.
 Print Assumptions c11_boundaries_computed.
 Print Assumptions c11_wrong_hash_rejected.
 Print Assumptions c11_known_class_inhabited.
+Print Assumptions c11_typed_normal_fixed.
+Print Assumptions c11_reserialisation_normal.
+Print Assumptions c11_typed_normal_iff.
+Print Assumptions c11_reserialisation_canonical.
+Print Assumptions c11_reserialisation_strict.
+Print Assumptions c11_reserialisation_strict_refuted.
+Print Assumptions c11_writer_is_struct_serializer.
+Print Assumptions c11_info_keys_match_schema.
+Print Assumptions c11_complete_concrete.
+Print Assumptions c11_authentic_concrete.
+Print Assumptions c11_authentic_concrete_stable.
+Print Assumptions c11_created_info_typed_normal.
+Print Assumptions c11_created_torrents_fetch_back.
+Print Assumptions c11_created_torrent_info_typed_normal.
+Print Assumptions c11_created_update_url_normal.
+Print Assumptions c11_known_class_never_understood.
+Print Assumptions c11_known_class_witness.
+Print Assumptions c11_complete_concrete_satisfiable.
+Print Assumptions c11_created_satisfiable.
